@@ -62,6 +62,8 @@ const HELPERS = `
   }
   global.__K = function (i, o) { SITES[i] = Object.keys(o).join(','); return o }
   global.__STR = function (s) { return String(s) }
+  // JSX twins: <X /> stands for __JSX(X, null); the "element" is the tag's value itself
+  global.__JSX = function (tag) { return tag }
   // an object literal holding every property of a build: own-key count and sum of the values
   global.__O = function (o) {
     const ks = Object.keys(o)
